@@ -32,23 +32,20 @@ Proof. exact select_refines_ref. Qed.
 Theorem C10_insensitive : forall l l' now tmo,
   Forall inv_x l -> Forall inv_x l' ->
   map (rl_of now tmo) l = map (rl_of now tmo) l' -> select l now tmo = select l' now tmo.
-Proof. intros l l' now tmo H H' E. rewrite !select_refines_ref by assumption. rewrite E. reflexivity. Qed.
+Proof. exact select_insensitive. Qed.
 
 (** the shell's routing (selection + best-path override as it stands in the source) sends every
     packet kind — plain, retransmit-flagged, inside a critical window, control — where the
     reference says *)
 Theorem C10_route_refines_ref : forall s seq retx now tmo,
   Inv s -> route Shape.override_mode_guarded s seq retx now tmo = ref_select (map (rl_of now tmo) (xs s)).
-Proof. intros s seq retx now tmo H. unfold route. cbn. apply select_refines_ref. exact H. Qed.
+Proof. exact route_refines_ref. Qed.
 
 (** without the mode guard the override breaks the property (DESIGN §8 F5, fixed in /repo by
     401f9e7): the witness is replayed on the real shell by the harness on every run *)
 Theorem C10_unguarded_override_refuted : exists s seq retx now tmo,
   Inv s /\ route false s seq retx now tmo <> ref_select (map (rl_of now tmo) (xs s)).
-Proof.
-  exists f5_state, (Some 8), true, 1002, 5000. split; [exact f5_inv|].
-  rewrite f5_unguarded, f5_ref. discriminate.
-Qed.
+Proof. exact unguarded_override_refuted. Qed.
 
 (** one SRTLA-acknowledged packet: the model's event (arrival-first earner, +29 rule on the
     remaining in-flight, +1 on every connected link that has received, caps) is the reference's *)
@@ -56,7 +53,7 @@ Theorem C10_srtla_ack_refines_ref : forall cs als idx seq now,
   Forall2 arel cs als -> Forall inv_link cs ->
   Forall2 arel (srtla_ack_event cs idx seq true now) (ref_srtla_ack_one idx als seq) /\
   Forall inv_link (srtla_ack_event cs idx seq true now).
-Proof. intros. split; [apply srtla_ack_event_ref|apply srtla_ack_event_inv]; assumption. Qed.
+Proof. exact srtla_ack_event_both. Qed.
 
 (** one NAK: every link's window drops by 100 (floor 1000) per log entry the NAK retired on it,
     and not otherwise *)
@@ -85,7 +82,7 @@ Proof. exact step_ok. Qed.
 Theorem C10_monitor_holds : forall n g ops,
   Forall wf_op ops ->
   ok_C10 (obs_shell (xinit n g)) (model_trace Shape.override_mode_guarded (xinit n g) ops) = true.
-Proof. exact monitor_holds_guarded. Qed.
+Proof. exact monitor_holds. Qed.
 
 (** ---- non-vacuity ---- *)
 Definition ex_ops : list xop :=
